@@ -129,7 +129,7 @@ var checkC01Walk = def("C01/walk", func(gc gen.GameCase) error {
 })
 
 func TestC01_walk(t *testing.T) {
-	runRapid(t, "C01/walk", 12000, func(t *rapid.T) gen.GameCase {
+	runRapid(t, "C01/walk", 24000, func(t *rapid.T) gen.GameCase {
 		gc, _ := gen.Game(t, 80)
 		return gc
 	}, func(gc gen.GameCase) error {
@@ -152,7 +152,7 @@ var checkC01Synth = def("C01/synth", func(c struct{ FEN string }) error {
 })
 
 func TestC01_synth(t *testing.T) {
-	runRapid(t, "C01/synth", 24000, func(t *rapid.T) struct{ FEN string } {
+	runRapid(t, "C01/synth", 60000, func(t *rapid.T) struct{ FEN string } {
 		if rapid.IntRange(0, 5).Draw(t, "epcheck") == 0 {
 			return struct{ FEN string }{gen.EPCheck(t).FEN()}
 		}
@@ -231,7 +231,7 @@ func TestC01_perft(t *testing.T) {
 	if thorough() {
 		maxDepth = 3
 	}
-	runRapid(t, "C01/perft", 2000, func(t *rapid.T) perftCase {
+	runRapid(t, "C01/perft", 5000, func(t *rapid.T) perftCase {
 		var st oracle.State
 		if rapid.Bool().Draw(t, "fromgame") {
 			_, g := gen.Game(t, 40)
